@@ -107,7 +107,18 @@ func baseConfig(foundation *common.Uint168) *config.Configuration {
 	return cfg
 }
 
-func newNode(dir string, cfg *config.Configuration, minerAddr string) (*node, error) {
+// v2Arbiters is the real arbiter set with one answer supplied by the simulated
+// environment: the height at which DPoS v2 became active. Reaching that state
+// for real needs a populated producer/stake history (dposstate engine); the
+// coinbase rules that depend on it are what runs for real here (C11).
+type v2Arbiters struct {
+	*state.Arbiters
+	active uint32
+}
+
+func (a *v2Arbiters) GetDPoSV2ActiveHeight() uint32 { return a.active }
+
+func newNode(dir string, cfg *config.Configuration, minerAddr string, v2active uint32) (*node, error) {
 	processInit()
 	events.VerifReset()
 	ffldb.Verif = &ffldb.VerifHooks{LdbWriteBuffer: 64 << 10, LdbBlockCache: 64 << 10}
@@ -142,6 +153,11 @@ func newNode(dir string, cfg *config.Configuration, minerAddr string) (*node, er
 	}
 	n.arbiters = arbiters
 	ledger.Arbitrators = arbiters
+	var arbIface state.Arbitrators = arbiters
+	if v2active > 0 {
+		arbIface = &v2Arbiters{Arbiters: arbiters, active: v2active}
+		ledger.Arbitrators = arbIface
+	}
 	chain, err := blockchain.New(store, cfg, arbiters.State, n.committee, n.ckp)
 	if err != nil {
 		return nil, err
@@ -184,7 +200,7 @@ func newNode(dir string, cfg *config.Configuration, minerAddr string) (*node, er
 		TxMemPool:      n.pool,
 		BlkMemPool:     n.blockPool,
 		BroadcastBlock: func(*types.Block) {},
-		Arbitrators:    arbiters,
+		Arbitrators:    arbIface,
 	})
 	if err := chain.InitCheckpoint(nil, nil, nil); err != nil {
 		return nil, err
